@@ -67,6 +67,14 @@ add("full", "shared", 2, 2, "read", "thorough", rlen=1, pipelined=True)
 # W before AW through the arbiter alone (no decoder, so KF-C08-1 does not apply): must be clean
 add("lite", "arbiter", 2, 1, "write", "quick", w_before_aw=True)
 add("full", "arbiter", 2, 1, "write", "thorough", w_before_aw=True)
+# bready / rready raised before the request is accepted and while idle (masters with a default-high response ready)
+add("lite", "arbiter", 2, 1, "read", "quick", eager_ready=True)
+add("lite", "arbiter", 2, 1, "write", "quick", eager_ready=True)
+add("lite", "decoder", 1, 2, "mixed", "quick", eager_ready=True)
+add("full", "arbiter", 2, 1, "read", "quick", eager_ready=True, rlen=1)
+add("lite", "shared", 2, 2, "read", "thorough", eager_ready=True)
+add("full", "shared", 2, 2, "write", "thorough", eager_ready=True)
+add("lite", "crossbar", 2, 2, "write", "thorough", eager_ready=True)
 # capabilities tied to known findings
 add("lite", "decoder", 1, 2, "write", "quick", idle0=True)
 add("lite", "shared", 2, 2, "write", "quick", idle0=True)
